@@ -4,6 +4,12 @@ the manifest never drifts from what bin/run.sh can actually run)."""
 import json, sys
 
 CHECKS = {
+ "C01": dict(
+  engine="SEQ+GEN",
+  technique="explicit-state model checking: exhaustive BFS over bounded rule-lifecycle histories on the real Location with every event dispatched in every state, plus bounded-exhaustive (when,event) pair enumeration, reference-model oracle",
+  text="All AddRule/RemRule/AddFact-over-rule-id/EnableRule/Clear/ProcessEvent sequences up to depth 3 (quick) / 4 (thorough) over two rule ids and 15 when-patterns chosen to reach every PatternIndex node kind, on indexed and linear state with and without a parent location; in every reached canonical state all 12 events are dispatched and the dispatched set, bindings, dispositions and SearchRules candidates are compared with a reference model. Additionally every (when, event) pair of a bounded JSON grammar is run on a fresh index and fresh locations.",
+  note="Trusts core.Matches as the definition of a match (C05), explicit {when:{pattern}} rule form, the L1 rewriter. Histories behind a state-diverging violation are not expanded.",
+  design="2/C01"),
  "C02": dict(
   engine="SEQ",
   technique="explicit-state model checking: exhaustive BFS over bounded operation sequences on the real Location, state-hash dedup, reference-model oracle",
